@@ -1,11 +1,11 @@
-import sys, time, json
-sys.path.insert(0,'/verif')
+import sys, time, json, os
+sys.path.insert(0,'/verif'); sys.path.insert(0, os.environ.get('DYNETX_REPO','/repo'))
 from pyvc.engine import Engine
 from pyvc.driver import find_counterexample
 from contracts.kernel import AddInteraction
 eng=Engine()
-cls=sys.argv[1]; e=sys.argv[2]; name=sys.argv[3]
+cls=sys.argv[1]; var=eval(sys.argv[2]); name=sys.argv[3]
 t=time.time()
-r=find_counterexample(eng, lambda n: AddInteraction(cls, bound_n=n), {'mode':'removal','t':'int','e':e}, name, log=print)
-print('%.1fs'%(time.time()-t))
-print(json.dumps(r, indent=1, default=str)[:3000] if r else None)
+r,info=find_counterexample(eng, lambda n: AddInteraction(cls, bound_n=n), var, name, log=print)
+print('%.1fs'%(time.time()-t), info)
+if r: print(r['call'], r['outcome'], sorted(r['violated'])); print(r['history'])
